@@ -21,6 +21,10 @@ def make_specs():
     for sp in c14.make_specs():   # the generators' contract used by the table is re-verified here
         sp.prop = PROP
         out.append(sp)
+    # "rename inside the tree: one moved event carrying both paths": the pairing of the two halves of a rename (C08's
+    # contract of InotifyBuffer._group_events) is what the table's pair rows rest on; re-verified here
+    from specs import c08
+    out.append(c08.GroupEvents(c08.GWorld(), PROP))
     return out
 
 
